@@ -43,22 +43,63 @@ def rule_rule_keyed(ctx, rep):
     fn = ctx.prog.func(PROCESS)
     fa = ctx.flow(fn)
     r = ctx.resolver(fn)
-    exts = [n for n in walk_no_nested(fn.node) if isinstance(n, ast.Call) and last_attr(n.func) in ("extend", "append") and "findings" in unparse(n.func.value)]
-    ok = bool(exts)
-    for c in exts:
-        a = c.args[0] if c.args else None
-        good = isinstance(a, ast.Call) and last_attr(a.func) == "results_for_rule_and_file" and len(a.args) == 3 and unparse(a.args[0]) == "context" and unparse(a.args[2]) == "filename"
-        if good:
-            rv = a.args[1]
-            it = r._loop_iter_for(rv.id) if isinstance(rv, ast.Name) else None
-            good = it is not None and unparse(it) == "rules"
-        ok = ok and good
+    pp = fn.positional_params()
+    if len(pp) < 5:
+        raise AnalysisError("_process_file(self, filename, context, results, rules) signature changed")
+    P_FILE, P_CTX, P_RESULTS, P_RULES = pp[1], pp[2], pp[3], pp[4]
+    applies0 = [n for n in walk_no_nested(fn.node) if isinstance(n, ast.Call) and last_attr(n.func) == "apply" and isinstance(n.func, ast.Attribute) and last_attr(n.func.value) == "transformer"]
+    if not applies0:
+        raise AnalysisError("_process_file no longer calls self.transformer.apply")
+    a0 = applies0[0]
+    fnode = a0.args[2] if len(a0.args) >= 3 else next((k.value for k in a0.keywords if k.arg == "results"), None)
+    FV = unparse(fnode) if fnode is not None else "?"
+
+    def lookup_ok(a, loop_holder):
+        """a is results.results_for_rule_and_file(context, <rule from rules>, filename)"""
+        if not (isinstance(a, ast.Call) and last_attr(a.func) == "results_for_rule_and_file" and isinstance(a.func, ast.Attribute) and unparse(a.func.value) == P_RESULTS):
+            return False
+        b = {"context": None, "rule_id": None, "file": None}
+        for name, v in zip(("context", "rule_id", "file"), a.args):
+            b[name] = v
+        for k in a.keywords:
+            if k.arg in b:
+                b[k.arg] = k.value
+        if None in b.values() or unparse(b["context"]) != P_CTX or unparse(b["file"]) != P_FILE:
+            return False
+        rv = b["rule_id"]
+        if not isinstance(rv, ast.Name):
+            return False
+        it = None
+        if loop_holder is not None:
+            for g in loop_holder.generators:
+                if isinstance(g.target, ast.Name) and g.target.id == rv.id:
+                    it = g.iter
+        if it is None:
+            it = r._loop_iter_for(rv.id)
+        return it is not None and unparse(it) == P_RULES
+
+    sources = []  # (node, ok)
+    for n in walk_no_nested(fn.node):
+        if isinstance(n, ast.Call) and isinstance(n.func, ast.Attribute) and n.func.attr in ("extend", "append", "insert") and unparse(n.func.value) == FV:
+            sources.append((n, n.func.attr == "extend" and len(n.args) == 1 and lookup_ok(n.args[0], None)))
+        elif isinstance(n, ast.AugAssign) and unparse(n.target) == FV:
+            sources.append((n, isinstance(n.op, ast.Add) and lookup_ok(n.value, None)))
+        elif isinstance(n, (ast.Assign, ast.AnnAssign)) and n.value is not None and any(unparse(t) == FV for t in (n.targets if isinstance(n, ast.Assign) else [n.target])):
+            v = n.value
+            if isinstance(v, ast.Constant) and v.value is None:
+                continue
+            if isinstance(v, (ast.List, ast.Tuple)) and not v.elts:
+                continue
+            if isinstance(v, ast.ListComp) and len(v.generators) == 2 and isinstance(v.elt, ast.Name) and isinstance(v.generators[1].target, ast.Name) and v.generators[1].target.id == v.elt.id and not any(g.ifs for g in v.generators):
+                sources.append((n, lookup_ok(v.generators[1].iter, v)))
+            else:
+                sources.append((n, False))
+    exts = [n for n, _ in sources]
+    ok = bool(sources) and all(g for _, g in sources)
     rep.check("R-RULE-KEYED", fn.qname, fn.loc(exts[0]) if exts else fn.loc(), ok, "findings-source",
               "findings handed to the transformer are not exactly results_for_rule_and_file(context, rule, filename) for rule in rules "
               "(findings of other rules or other files would drive the fix)")
-    applies = [n for n in walk_no_nested(fn.node) if isinstance(n, ast.Call) and last_attr(n.func) == "apply" and "transformer" in unparse(n.func)]
-    if not applies:
-        raise AnalysisError("_process_file no longer calls self.transformer.apply")
+    applies = applies0
     from ..logic import consistent_assignments
 
     for c in applies:
@@ -66,29 +107,67 @@ def rule_rule_keyed(ctx, rep):
         fvar = unparse(findings_arg) if findings_arg is not None else None
 
         def atom(e, _fvar=fvar):
-            if isinstance(e, ast.Compare) and len(e.ops) == 1 and isinstance(e.comparators[0], ast.Constant) and e.comparators[0].value is None and unparse(e.left) == "results":
+            if isinstance(e, ast.Compare) and len(e.ops) == 1 and isinstance(e.comparators[0], ast.Constant) and e.comparators[0].value is None and unparse(e.left) == P_RESULTS:
                 return "RESULTS_NONE" if isinstance(e.ops[0], ast.Is) else "!RESULTS_NONE"
             if _fvar is not None and unparse(e) == _fvar:
                 return "FINDINGS"
             if isinstance(e, ast.Call) and call_name(e) == "len" and e.args and _fvar is not None and unparse(e.args[0]) == _fvar:
                 return "FINDINGS"
+            if isinstance(e, ast.Compare) and len(e.ops) == 1 and isinstance(e.left, ast.Call) and call_name(e.left) == "len" and e.left.args and unparse(e.left.args[0]) == _fvar \
+                    and isinstance(e.comparators[0], ast.Constant) and e.comparators[0].value == 0:
+                if isinstance(e.ops[0], ast.Eq):
+                    return "!FINDINGS"
+                if isinstance(e.ops[0], (ast.Gt, ast.NotEq)):
+                    return "FINDINGS"
+            if isinstance(e, ast.Name) and e.id != _fvar:
+                x = r.expand(e)
+                if not isinstance(x, ast.Name):
+                    return x
             return None
 
         combos = consistent_assignments(fa.must_at(c), atom, ["RESULTS_NONE", "FINDINGS"])
         bad = [x for x in combos if x["RESULTS_NONE"] is False and x["FINDINGS"] is False]
         passes = fvar is not None and len(c.args) >= 2 and unparse(c.args[1]) == "file_context"
         # the findings handed over are the per-file list built above
-        ext_names = {unparse(e_.func.value) for e_ in exts if isinstance(e_.func, ast.Attribute)}
-        same_list = fvar in ext_names
+        same_list = fvar == FV
         rep.check("R-RULE-KEYED", fn.qname, fn.loc(c), not bad and passes and same_list, "short-circuit",
                   "transformer.apply is reachable with a detector present but no finding for this file (every candidate site would be rewritten), "
                   "or does not receive the per-file findings list")
     fcs = [n for n in walk_no_nested(fn.node) if isinstance(n, ast.Call) and r.callee_qname(n) == "codemodder.file_context.FileContext"]
-    ok = bool(fcs) and all(any(unparse(a) == "findings_for_rule" for a in list(c.args) + [k.value for k in c.keywords]) for c in fcs)
+    ok = bool(fcs) and all(any(unparse(a) == FV for a in list(c.args) + [k.value for k in c.keywords]) for c in fcs)
     rep.check("R-RULE-KEYED", fn.qname, fn.loc(fcs[0]) if fcs else fn.loc(), ok, "file-context-results", "FileContext is not given the per-file findings (change entries could not carry them)")
     rs = ctx.prog.func("codemodder.result.ResultSet.results_for_rule_and_file")
-    txt = unparse(rs.node)
-    ok = "self.get(rule_id" in txt and "relative_to(context.directory)" in txt
+    rp = rs.positional_params()
+    if len(rp) < 4:
+        raise AnalysisError("results_for_rule_and_file(self, context, rule_id, file) signature changed")
+    R_CTX, R_RULE, R_FILE = rp[1], rp[2], rp[3]
+    rr = ctx.resolver(rs)
+
+    def strip_or(e):
+        while isinstance(e, ast.BoolOp) and isinstance(e.op, ast.Or):
+            e = e.values[0]
+        return e
+
+    def lookup(e):
+        e = strip_or(rr.expand(e))
+        if isinstance(e, ast.Call) and isinstance(e.func, ast.Attribute) and e.func.attr == "get" and e.args:
+            return e.func.value, e.args[0]
+        if isinstance(e, ast.Subscript):
+            return e.value, e.slice
+        return None
+
+    rets = [n.value for n in walk_no_nested(rs.node) if isinstance(n, ast.Return) and n.value is not None and not (isinstance(n.value, (ast.List, ast.Tuple)) and not n.value.elts)]
+    ok = bool(rets)
+    for rv in rets:
+        outer = lookup(rv)
+        inner = lookup(outer[0]) if outer else None
+        good = False
+        if outer and inner:
+            key = rr.expand(outer[1])
+            rel = [c for c in ast.walk(key) if isinstance(c, ast.Call) and isinstance(c.func, ast.Attribute) and c.func.attr == "relative_to" and c.args
+                   and unparse(c.args[0]) == f"{R_CTX}.directory" and R_FILE in {x.id for x in ast.walk(c.func.value) if isinstance(x, ast.Name)}]
+            good = unparse(inner[0]) == "self" and unparse(rr.expand(inner[1])) == R_RULE and bool(rel)
+        ok = ok and good
     rep.check("R-RULE-KEYED", rs.qname, rs.loc(), ok, "lookup-by-rule-and-file", "results_for_rule_and_file no longer looks up by rule id and target-relative file")
 
 
